@@ -16,6 +16,12 @@ class ModuleInfo:
         with open(path, "r", encoding="utf-8") as fd:
             self.source = fd.read()
         self.tree = ast.parse(self.source, filename=path)
+        if not os.environ.get("PYVC_NO_ALPHA"):
+            from .alpha import normalise_module
+
+            # locals renamed back to the names the contracts were written against (alpha-conversion, see pyvc/alpha.py)
+            self.renamed = []
+            normalise_module(self.tree, name, self.renamed)
         self.functions: dict[str, ast.AST] = {}
         self.classes: dict[str, ast.ClassDef] = {}
         self.assigns: dict[str, ast.expr] = {}
